@@ -13,10 +13,13 @@ import itertools
 _ctr = itertools.count()
 
 VERIF = '/verif'
-REPO = '/repo'
-BUILD = os.path.join(VERIF, '.build')
+# The registered checks always run on /repo with /verif/.build and /verif/evidence.  The three overrides exist for
+# tools/seedrun.sh only: a seeded change is evaluated in a scratch worktree with its own build and evidence
+# directories, so that /repo stays untouched while other checks run.
+REPO = os.environ.get('VERIF_REPO', '/repo')
+BUILD = os.environ.get('VERIF_BUILD', os.path.join(VERIF, '.build'))
 OVERLAY = os.path.join(BUILD, 'overlay.json')
-EVID = os.path.join(VERIF, 'evidence')
+EVID = os.environ.get('VERIF_EVID', os.path.join(VERIF, 'evidence'))
 REPLAYS = os.path.join(EVID, 'replays')
 KNOWN = os.path.join(VERIF, 'known_findings.json')
 HARNESS_PKG = 'github.com/apache/skywalking-banyandb/banyand/verifharness/'
